@@ -18,7 +18,7 @@ FILES = ["aotools/image_processing/centroiders.py", "aotools/image_processing/co
          "aotools/turbulence/phasescreen.py", "aotools/turbulence/slopecovariance.py", "aotools/functions/zernike.py",
          "aotools/functions/pupil.py", "aotools/wfs/wfslib.py", "aotools/turbulence/atmos_conversions.py",
          "aotools/turbulence/temporal_ps.py", "aotools/turbulence/turb.py", "aotools/astronomy/_astronomy.py",
-         "aotools/turbulence/profile_compression.py"]
+         "aotools/turbulence/profile_compression.py", "aotools/functions/karhunenLoeve.py"]
 
 SKIPPED = ["interpolation.zoom (interp2d: removed from SciPy, FITPACK)", "interpolation.zoom_rbs (FITPACK; contract-level only, C16)",
            "profile_compression.GCTM (scipy.optimize.minimize)", "profile_compression.optimal_grouping (global RNG restarts; C18)",
@@ -96,6 +96,10 @@ def specs(tier):
     add("phasescreen.ift2", ["turbulence.phasescreen"], "turbulence.phasescreen.ift2", lambda: ([symarr("G", (2, 2), cplx=True), var("d")], {}, [z3.Real("d") > 0]))
     SC = "turbulence.slopecovariance"
     add("structure_function_vk", [SC], SC + ".structure_function_vk", lambda: ([img((2, 2)), var("r0"), var("L0")], {}, pos(img((2, 2))) + [z3.Real("r0") > 0, z3.Real("L0") > 0]))
+    KLM = "functions.karhunenLoeve"
+    add("stf_vonKarman (Karhunen-Loeve copy)", [KLM], KLM + ".stf_vonKarman", lambda: ([img((2, 2)), var("L0")], {}, pos(img((2, 2))) + [z3.Real("L0") > 0]))
+    add("stf_kolmogorov (Karhunen-Loeve copy)", [KLM], KLM + ".stf_kolmogorov", lambda: ([img((2, 2))], {}, pos(img((2, 2)))))
+    add("stf_vonKarman_yao", [KLM], KLM + ".stf_vonKarman_yao", lambda: ([img((2, 2)), var("L0")], {}, pos(img((2, 2))) + [z3.Real("L0") > 0]))
     add("structure_function_kolmogorov", [SC], SC + ".structure_function_kolmogorov", lambda: ([img((2, 2)), var("r0")], {}, pos(img((2, 2))) + [z3.Real("r0") > 0]))
     add("calculate_structure_function", [SC], SC + ".calculate_structure_function", lambda: ([img((4, 4))], dict(nbOfPoint=3), []))
     add("mirror_covariance_matrix", [SC], SC + ".mirror_covariance_matrix", lambda: ([_lower(img((3, 3)))], {}, []))
